@@ -165,6 +165,7 @@ type FuncContract struct {
 	Template  []QVar    // for templates: the parameters a function must have
 	IsTempl   bool
 	LoopInvs  []*Clause // template: invariants added to every loop of the matched functions
+	PanicsWhen *Clause  // "panics when <cond>": the body may panic or stop the process only where <cond> holds
 }
 
 type GuardDecl struct {
@@ -969,7 +970,13 @@ func (C *Contracts) parseStatements(pkg, path string, stmts []rawLine) (err erro
 			}
 			key := name
 			if pkg != "" && !strings.HasPrefix(name, pkg+".") && strings.Count(name, ".") < 2 {
-				if _, isPkg := scopePkgs[strings.Split(name, ".")[0]]; !isPkg || strings.Count(name, ".") == 0 {
+				_, isPkg := scopePkgs[strings.Split(name, ".")[0]]
+				for _, a := range aliasPkgs {
+					if a == strings.Split(name, ".")[0] {
+						isPkg = true
+					}
+				}
+				if !isPkg || strings.Count(name, ".") == 0 {
 					key = pkg + "." + name
 				}
 			}
@@ -1052,8 +1059,16 @@ func (C *Contracts) parseStatements(pkg, path string, stmts []rawLine) (err erro
 				C.ChanInvPkg = map[string]string{}
 			}
 			name := f[0]
-			if pkg != "" && strings.HasPrefix(name, "*") && !strings.Contains(name, ".") {
-				name = "*" + pkg + "." + name[1:]
+			if pkg != "" && !strings.Contains(name, ".") {
+				full := strings.TrimPrefix(scopePkgs[pkg], mainMod+"/")
+				if full == "" {
+					full = pkg
+				}
+				if strings.HasPrefix(name, "*") {
+					name = "*" + full + "." + name[1:]
+				} else {
+					name = full + "." + name
+				}
 			}
 			switch f[1] {
 			case "nonnil":
@@ -1064,7 +1079,6 @@ func (C *Contracts) parseStatements(pkg, path string, stmts []rawLine) (err erro
 				if err != nil {
 					return cerr(st, "%v", err)
 				}
-				C.ChanNonNil[name] = true
 				C.ChanInv[name] = &Clause{Kind: "chaninv", E: e, Text: txt, Line: st.line}
 				C.ChanInvPkg[name] = pkg
 			default:
@@ -1397,6 +1411,17 @@ func (C *Contracts) parseStatements(pkg, path string, stmts []rawLine) (err erro
 		case "panics":
 			if cur == nil {
 				return cerr(st, "panics outside func")
+			}
+			if strings.HasPrefix(rest, "when ") || strings.HasPrefix(rest, "when\t") {
+				// panics when <cond>: every explicit panic and every call that does not return (log.Fatal, log.Panic, ...)
+				// in the body is an obligation that <cond> holds there
+				rest = strings.TrimSpace(rest[len("when"):])
+				c, err := mkClause("stops", true)
+				if err != nil {
+					return err
+				}
+				cur.PanicsWhen = c
+				break
 			}
 			cur.Flags["panics_allowed"] = true
 		case "arith":
